@@ -171,3 +171,66 @@ def _reset_module_state():
 
 def asm1(text, filename="/t/main.mac", **kw):
     return assemble([(filename, text)], **kw)
+
+
+# --------------------------------------------------------------------------
+# the command line, in-process
+
+class CliResult:
+    __slots__ = ("exit", "stdout", "stderr", "exc")
+
+    def __init__(self):
+        self.exit = None
+        self.stdout = b""
+        self.stderr = ""
+        self.exc = None
+
+
+def run_cli(argv, cwd=None, stdin_text="", timeout=20.0):
+    """pdpy11._cli.main_cli() with the given arguments; returns exit status (0 when main_cli
+    returns normally), captured stdout (bytes) and stderr (text)"""
+    import io
+    m = load()
+    res = CliResult()
+    old = (sys.argv, sys.stdout, sys.stderr, sys.stdin, os.getcwd())
+    out_b = io.BytesIO()
+    sys.stdout = io.TextIOWrapper(out_b, encoding="utf-8", errors="replace", write_through=True)
+    sys.stderr = io.StringIO()
+    sys.stdin = io.StringIO(stdin_text)
+    sys.argv = ["pdpy11"] + list(argv)
+    try:
+        if cwd:
+            os.chdir(cwd)
+        try:
+            with watchdog(timeout):
+                m["_cli"].main_cli()
+            res.exit = 0
+        except SystemExit as ex:
+            res.exit = ex.code if isinstance(ex.code, int) else (0 if ex.code is None else 1)
+        except Hang:
+            res.exit = "hang"
+            _reset_module_state()
+        except BaseException as ex:  # pylint: disable=broad-except
+            res.exit = "exception"
+            res.exc = (type(ex).__name__, str(ex)[:200])
+    finally:
+        try:
+            sys.stdout.flush()
+        except Exception:  # pylint: disable=broad-except
+            pass
+        res.stdout = out_b.getvalue()
+        res.stderr = sys.stderr.getvalue()
+        sys.argv, sys.stdout, sys.stderr, sys.stdin = old[:4]
+        os.chdir(old[4])
+    return res
+
+
+def snapshot_dir(d):
+    """{relative path: bytes} of every file under d"""
+    out = {}
+    for root, _dirs, files in os.walk(d):
+        for fn in files:
+            p = os.path.join(root, fn)
+            with open(p, "rb") as f:
+                out[os.path.relpath(p, d)] = f.read()
+    return out
